@@ -16,6 +16,7 @@ import TonVerif.Proofs.Locate
 import TonVerif.Proofs.LocateBind
 import TonVerif.Proofs.SrcArith2
 import TonVerif.Generated.ProofChecks
+import TonVerif.Proofs.SrcProof
 
 namespace TonVerif.Properties.C11
 open TonVerif TonVerif.Model TonVerif.Proofs.CellSpec TonVerif.Proofs.Prune TonVerif.Proofs.Merkle
@@ -1031,5 +1032,128 @@ example : let h : Bytes := List.replicate 32 7
   decide
 
 end Src
+
+/-! ## The WHOLE functions regenerated from the source (`Generated/ProofFull.lean`: `check_proof`, `check_block_header_proof` in
+both modes and `check_account_proof` re-translated from proof/check_proof.py on every run by harness/translate/pyfunc.py)
+
+`Generated.ProofFull.check_proof cell hash_ : Option Unit` is the function body statement by statement, with Python's order of
+evaluation of the raising sub-expressions (`cell[0]` = IndexError, `get_hash` / `get_depth`, `to_bytes(2, 'big')` = OverflowError;
+the operands of `or` only where Python reaches them); `some` = returns, `none` = raises.  `check_block_header_proof_False` /
+`_True` are the function specialised to `store_state_hash`; `check_account_proof_False` to `return_account_descr=False`.  Declared
+reading (harness/translate/prooffull.py): a constructed `Cell` is a `PCell`, `cell[i]` = `cell.refs[i]`, `get_hash` / `get_depth` =
+`CellInfo.getHash` / `getDepth` (regenerated and proved in C02), `Cell.from_boc` and the TL-B deserialiser calls are parameters. -/
+section SrcFull
+open TonVerif.Generated.ProofFull TonVerif.Proofs.SrcProof
+
+/-- the regenerated `check_proof` and `check_block_header_proof` ARE the hand model, for every constructed cell and hash:
+same decision to raise, and in the `store_state_hash=True` mode the same returned state hash. -/
+theorem c11_src_fn_check_proof (c : PCell) (h : Bytes) :
+    check_proof c h = (if checkProof c h then some () else none) ∧
+    check_block_header_proof_False c h = (if checkBlockHeaderProof c h then some () else none) ∧
+    check_block_header_proof_True c h = checkBlockHeaderProofState c h :=
+  ⟨src_check_proof_eq c h, src_header_eq c h, src_header_state_eq c h⟩
+
+theorem check_proof_some_iff (c : PCell) (h : Bytes) : check_proof c h = some () ↔ checkProof c h = true := by
+  rw [src_check_proof_eq]; cases checkProof c h <;> simp
+
+/-- COMPLETENESS for the regenerated code (`c11_complete`): for every spec-valid level-0 tree `t` and ANY pruning `p` of it, the
+Merkle proof cell over `p` can be constructed, the regenerated `check_proof(proof, hash t)` returns and the regenerated
+`check_block_header_proof(proof[0], hash t)` returns. -/
+theorem c11_src_complete (H : Bytes → Bytes) (t p : Cell) (s : Spec.SInfo)
+    (wft : TreeWF H t) (hs : specInfo H t = some s) (hlev : s.mask = 0) (hrel : PruneRel H 1 t p)
+    (h32 : (s.hashAt 0).length = 32 ∧ Bytes.WF (s.hashAt 0)) (hd : s.depthAt 0 ≤ 1022) :
+    ∃ c r, PCell.ofCell H (merkleProofCell (s.hashAt 0) (s.depthAt 0) p) = some c ∧ c.refs = [r] ∧
+      PCell.ofCell H p = some r ∧
+      check_proof c (s.hashAt 0) = some () ∧ check_block_header_proof_False r (s.hashAt 0) = some () := by
+  obtain ⟨c, r, h1, h2, h3, h4, h5⟩ := c11_complete H t p s wft hs hlev hrel h32 hd
+  exact ⟨c, r, h1, h2, h3, by rw [src_check_proof_eq, h4]; rfl, by rw [src_header_eq, h5]; rfl⟩
+
+/-- SOUNDNESS, structural part, for the regenerated code (`c11_sound_shape`): if the regenerated `check_proof(c, h)` returns then
+`c` is a Merkle proof cell with exactly one child and exactly 280 data bits `03 ++ h ++ depth`, and the child's level-0 hash is
+`h`.  In particular a proof cell of 288 bits, a cell of another type, a second reference, or a child hash / stored hash other than
+`h` make it raise. -/
+theorem c11_src_sound_shape (c : PCell) (h : Bytes) (hacc : check_proof c h = some ()) :
+    c.info.kind = kMerkleProof ∧ pySlice c.data 1 33 = h ∧ c.info.bits.length = 280 ∧
+    ∃ r d, c.refs = [r] ∧ r.info.getHash 0 = some h ∧ r.info.getDepth 0 = some d ∧
+      c.data = [3] ++ h ++ Spec.be2 d :=
+  c11_sound_shape c h ((check_proof_some_iff c h).1 hacc)
+
+/-- SOUNDNESS for the regenerated code (`c11_sound`): if the regenerated `check_proof` returns on the constructed proof cell then,
+for EVERY tree `t` whose level-0 hash is `h`, the proof body `p` agrees with `t` at level 0 — under the local no-collision
+hypothesis. -/
+theorem c11_src_sound (H : Bytes → Bytes) (h32 : ∀ x, (H x).length = 32) (kind : Int) (bits : Bits) (p t : Cell)
+    (c : PCell) (h : Bytes) (sp st : Spec.SInfo)
+    (wf : TreeWF H (.mk kind bits [p])) (hc : PCell.ofCell H (.mk kind bits [p]) = some c)
+    (hacc : check_proof c h = some ())
+    (shp : Shape p) (sht : Shape t) (hsp : specInfo H p = some sp) (hst : specInfo H t = some st) (ht : st.hashAt 0 = h)
+    (nocoll : ∀ x y, x ∈ reprs H p → y ∈ reprs H t → H x = H y → x = y) :
+    c.info.kind = kMerkleProof ∧ pySlice c.data 1 33 = h ∧ Agree H 0 p t :=
+  c11_sound H h32 kind bits p t c h sp st wf hc ((check_proof_some_iff c h).1 hacc) shp sht hsp hst ht nocoll
+
+/-- the regenerated `check_block_header_proof(root, h, True)` returning `sh` (`c11_header_state_sound`): `root.get_hash(0) = h`,
+`root[2]` is a Merkle update cell, `sh` is the level-0 hash of its second child and the new-state hash stored in its data. -/
+theorem c11_src_header_state_sound (root : PCell) (h sh : Bytes) (hacc : check_block_header_proof_True root h = some sh) :
+    root.info.getHash 0 = some h ∧
+    ∃ su c, root.refs[2]? = some su ∧ su.refs[1]? = some c ∧ su.info.kind = kMerkleUpdate ∧
+      c.info.getHash 0 = some sh ∧ pySlice su.data 33 65 = sh :=
+  c11_header_state_sound root h sh (by rw [← src_header_state_eq]; exact hacc)
+
+/-- the regenerated `check_account_proof` IS the hand model on the roots `Cell.from_boc` returns — for ALL values of the declared
+externals (`Cell.from_boc`, `ShardStateUnsplit.deserialize`, `.accounts[0][key]`, `.cell`) that compose to the model's TL-B walk
+`locateAccount` (hypothesis `hwalk`; the walk itself stays Model/Locate.lean + sampled correspondence). -/
+theorem c11_src_fn_account {Shard ShardAccount : Type} (fromBoc : Bytes → Option (List PCell))
+    (deser : PCell → Option Shard) (get : Shard → Nat → Option ShardAccount) (cellOf : ShardAccount → PCell)
+    (O : Opaque) (proof blkRootHash addr : Bytes) (state : PCell)
+    (hwalk : ∀ st, ((deser st).bind fun sh => (get sh (natOfBE addr)).bind fun sa => (cellOf sa).refs[0]?) = locateAccount O st addr) :
+    check_account_proof_False fromBoc deser get cellOf proof blkRootHash addr state =
+      (fromBoc proof).bind fun roots => if checkAccountProof O roots blkRootHash addr state then some () else none :=
+  src_check_account_proof_eq fromBoc deser get cellOf O proof blkRootHash addr state hwalk
+
+/-- SOUNDNESS of the regenerated account check (`c11_account_sound`): if it returns, `Cell.from_boc` gave exactly two roots, both
+pass `check_proof`, the header commits to the state hash, the walk over the proved state cell returned a cell whose level-0 hash
+is the REPRESENTATION hash of the supplied account state. -/
+theorem c11_src_account_sound {Shard ShardAccount : Type} (fromBoc : Bytes → Option (List PCell))
+    (deser : PCell → Option Shard) (get : Shard → Nat → Option ShardAccount) (cellOf : ShardAccount → PCell)
+    (O : Opaque) (proof blk addr : Bytes) (state : PCell)
+    (hwalk : ∀ st, ((deser st).bind fun sh => (get sh (natOfBE addr)).bind fun sa => (cellOf sa).refs[0]?) = locateAccount O st addr)
+    (hacc : check_account_proof_False fromBoc deser get cellOf proof blk addr state = some ()) :
+    ∃ p0 p1 hdr st acc sh, fromBoc proof = some [p0, p1] ∧ checkProof p0 blk = true ∧ p0.refs[0]? = some hdr ∧
+      checkBlockHeaderProofState hdr blk = some sh ∧ p1.refs[0]? = some st ∧ st.info.getHash 0 = some sh ∧
+      checkProof p1 sh = true ∧ locateAccount O st addr = some acc ∧ acc.info.getHash 0 = some state.info.hash := by
+  rw [src_check_account_proof_eq fromBoc deser get cellOf O proof blk addr state hwalk] at hacc
+  cases hb : fromBoc proof with
+  | none => rw [hb] at hacc; cases hacc
+  | some roots =>
+    rw [hb, Option.bind_some] at hacc
+    have hc : checkAccountProof O roots blk addr state = true := by
+      cases h : checkAccountProof O roots blk addr state
+      · rw [h] at hacc; cases hacc
+      · rfl
+    obtain ⟨p0, p1, hdr, st, acc, sh, hr, rest⟩ := c11_account_sound O roots blk addr state hc
+    exact ⟨p0, p1, hdr, st, acc, sh, by rw [hr], rest⟩
+
+/-- non-vacuity of `hwalk`: externals that compose to `locateAccount` exist for every `O` and address (the state cell as its own
+deserialisation, the located account cell wrapped so that `.cell[0]` is it). -/
+example (O : Opaque) (addr : Bytes) : ∀ st : PCell,
+    (((some st : Option PCell)).bind fun sh => ((fun (s : PCell) (_ : Nat) => locateAccount O s addr) sh (natOfBE addr)).bind
+      fun sa => ((fun (a : PCell) => PCell.mk a.info [a]) sa).refs[0]?) = locateAccount O st addr := by
+  intro st
+  simp only [Option.bind_some]
+  cases h : locateAccount O st addr <;> simp [PCell.refs]
+
+/-- non-vacuity: the regenerated `check_proof` evaluated on a hand-built proof cell (child with the stated hash and depth): returns;
+with one more data byte (288 bits), with the child's hash off by one byte, or for another expected hash: raises. -/
+def fnChild : PCell := .mk ⟨-1, [], 0, 0, [List.replicate 32 7], [5]⟩ []
+def fnProof (bits : Bits) : PCell := .mk ⟨3, bits, 1, 0, [List.replicate 32 9], [6]⟩ [fnChild]
+def fnBits : Bits := bytesToBits ([3] ++ List.replicate 32 7 ++ [0, 5])
+example : check_proof (fnProof fnBits) (List.replicate 32 7) = some () ∧
+    check_proof (fnProof (fnBits ++ List.replicate 8 false)) (List.replicate 32 7) = none ∧
+    check_proof (fnProof fnBits) (List.replicate 32 8) = none ∧
+    check_proof (.mk ⟨3, fnBits, 2, 0, [], []⟩ [fnChild, fnChild]) (List.replicate 32 7) = none ∧
+    check_proof (.mk ⟨-1, fnBits, 1, 0, [], []⟩ [fnChild]) (List.replicate 32 7) = none ∧
+    check_block_header_proof_False fnChild (List.replicate 32 7) = some () ∧
+    check_block_header_proof_True fnChild (List.replicate 32 7) = none := by decide +kernel
+
+end SrcFull
 
 end TonVerif.Properties.C11
